@@ -4,6 +4,7 @@
   Statements only (proofs go through Lemmas/Paths.lean).  Quantified over *every* argument string,
   every base path and every working directory whose parts are names `_parse_path` can produce.
 -/
+import AioftpModel.Generated.Server
 import AioftpModel.Lemmas.Paths
 
 namespace C02
@@ -92,6 +93,21 @@ theorem walk_dotdot_stops_at_root (n : Nat) :
     rw [List.replicate_succ, List.foldl_cons]
     have : walkSeg [] dotdot = [] := by decide
     rw [this, ih]
+
+/-! ### the path the permission lookup is made for -/
+
+/-- **fact_permission_lookup_on_virtual_path**: as regenerated from `server.py`, `PathPermissions` takes the virtual
+    path from `get_paths(connection, rest)` - the call every handler makes for the location it acts on - and looks the
+    permission up for exactly that value -/
+theorem fact_permission_lookup_on_virtual_path : Generated.permissionLookupOnVirtualPath = true := by decide
+
+/-- **permission_lookup_path_is_the_location**: for EVERY base directory, working directory and argument, the path the
+    permission lookup is made for (the virtual half of `getPaths`) is absolute and normal, and it is the walk of the
+    argument from the working directory (the location the real half addresses below the base directory:
+    `real_is_relative_to_base`) -/
+theorem permission_lookup_path_is_the_location (base cwd : PPath) (arg : Str) (hc : AbsNormal cwd) :
+    AbsNormal (getPaths base cwd arg).2 ∧ (getPaths base cwd arg).2 = ⟨1, walk cwd.parts arg⟩ :=
+  ⟨virtual_absnormal base cwd arg hc.cwdOK, resolves_to_walk base cwd arg hc⟩
 
 /-! ### non-vacuity: concrete instances of every hypothesis and a non-trivial evaluation -/
 
